@@ -70,3 +70,16 @@ theorem uAndF_congr_env (m : Model) (P : Params) (g : Groups) (t : Nat)
 
 #print axioms uAndF_congr_env
 end Lcm
+
+namespace Lcm
+
+/-- by-name evaluation depends on the model only through the name → function lookup -/
+theorem callF_congr_funcs (m m' : Model) (h : ∀ n, m.func? n = m'.func? n) (P : Params) (fuel : Nat)
+    (e : Env) (fname : Name) : callF m P fuel e fname = callF m' P fuel e fname := by
+  induction fuel generalizing fname with
+  | zero => rfl
+  | succ fuel ih =>
+    unfold callF
+    simp only [ih, h]
+
+end Lcm
